@@ -1,5 +1,5 @@
 import Txtpp.Model.Text
-/-! Scratch prototype: `str::lines`, line-ending conformance (C12) -/
+/-! `str::lines`, `BufRead::lines`, `replace_line_ending`, `format_directive_output`; line-ending conformance (C12) -/
 namespace Txt
 
 /-- Rust `str::lines()` -/
@@ -11,9 +11,22 @@ def rustLines : Str → List Str
       | [] => [[c]]
       | l :: ls => (c :: l) :: ls
 
-#eval (rustLines "a\r\nb\n\nc\r".toList).map String.ofList
-#eval (rustLines "a\r\r\n".toList).map String.ofList
-#eval (rustLines "\r\n".toList).map String.ofList
+
+/-- `[String]::join` -/
+def joinWith (sep : Str) : List Str → Str
+  | [] => []
+  | [l] => l
+  | l :: ls => l ++ sep ++ joinWith sep ls
+
+/-- `str::ends_with('\n')` -/
+def endsNl (s : Str) : Bool := s.getLast? = some '\n'
+
+/-- `ReplaceLineEnding::replace_line_ending(le, false)` -/
+def replaceLE (le s : Str) : Str := joinWith le (rustLines s) ++ (if endsNl s then le else [])
+
+/-- `Pp::format_directive_output(ws, raw.lines(), raw.ends_with('\n'))` -/
+def formatOutput (le ws raw : Str) : Str :=
+  joinWith le ((rustLines raw).map (ws ++ ·)) ++ (if endsNl raw then le else [])
 
 /-- every `\r` is immediately followed by `\n` -/
 def crDom : Str → Bool
